@@ -493,7 +493,7 @@ pub fn run(tier: &str, mode: Mode) -> i32 {
     // (c) every string of the seven token shapes with arbitrary ranks, bare and with a weight
     {
         let shapes = vlib::report::thin(shape_strings(), 8);
-        let step = if thorough { 1 } else { 3 };
+        let step = if thorough { 1 } else { 5 };
         let chunk = 256;
         let idx: Vec<usize> = (0..shapes.len()).collect();
         let nch = (idx.len() + chunk - 1) / chunk;
@@ -528,7 +528,7 @@ pub fn run(tier: &str, mode: Mode) -> i32 {
             }
         }
         rep.machine(st_all.nonempty_ranges.max(1), st_all.stage2.max(1), st_all.strings);
-        rep.sub("token-shapes", "EVERY string of the seven token shapes with arbitrary ranks: 169 x {none,s,o} x {none,+}; all 13^4 'XY-ZW'; all 13^4 x 4 'XY[so]-ZW[so]'; all 52^2 card-pair shapes (146,523 strings), bare and (all in thorough, every third in quick) with ':0.5', through the token and range parsers and the second stage; distinct_nontrivial = strings that parse", st_all.strings, st_all.parsed_tokens.max(st_all.nonempty_ranges), true, json!({"shape_strings": shapes.len(), "tokens_parsed": st_all.parsed_tokens, "non_empty_ranges": st_all.nonempty_ranges, "second_stage_operations": st_all.stage2}));
+        rep.sub("token-shapes", "EVERY string of the seven token shapes with arbitrary ranks: 169 x {none,s,o} x {none,+}; all 13^4 'XY-ZW'; all 13^4 x 4 'XY[so]-ZW[so]'; all 52^2 card-pair shapes (146,523 strings), bare and (all in thorough, every fifth in quick) with ':0.5', through the token and range parsers and the second stage; distinct_nontrivial = strings that parse", st_all.strings, st_all.parsed_tokens.max(st_all.nonempty_ranges), true, json!({"shape_strings": shapes.len(), "tokens_parsed": st_all.parsed_tokens, "non_empty_ranges": st_all.nonempty_ranges, "second_stage_operations": st_all.stage2}));
         rep.sample(json!({"inputs": ["22-AA", "KAs+", "2As+", "AsAs", "AKs-AQo"]}));
     }
 
@@ -589,7 +589,7 @@ pub fn run(tier: &str, mode: Mode) -> i32 {
         let mut variants: Vec<String> = vec![];
         for (i, sh) in shapes.iter().enumerate() {
             let short = sh.len() <= 4;
-            if !short && i % (if thorough { 8 } else { 48 }) != 0 {
+            if !short && i % (if thorough { 8 } else { 96 }) != 0 {
                 continue;
             }
             for suf in ["", ":0.5"] {
@@ -636,7 +636,7 @@ pub fn run(tier: &str, mode: Mode) -> i32 {
                 push_viol(&mut rep, "shape-mutations", &s, &stage, &what, mode);
             }
         }
-        rep.sub("shape-mutations", "one-edit mutations of the token shapes, bare and with ':0.5' (all short and card-pair shapes, every 48th span shape in quick / 8th in thorough): each character deleted, each doubled, each adjacent pair swapped - e.g. 'AKs-AQ', 'AKss', 'AK-sAQs', 'AKs:.05'; distinct_nontrivial = mutations that still parse", st_all.strings, st_all.parsed_tokens + st_all.nonempty_ranges, false, json!({"mutations": variants.len()}));
+        rep.sub("shape-mutations", "one-edit mutations of the token shapes, bare and with ':0.5' (all short and card-pair shapes, every 96th span shape in quick / 8th in thorough): each character deleted, each doubled, each adjacent pair swapped - e.g. 'AKs-AQ', 'AKss', 'AK-sAQs', 'AKs:.05'; distinct_nontrivial = mutations that still parse", st_all.strings, st_all.parsed_tokens + st_all.nonempty_ranges, false, json!({"mutations": variants.len()}));
     }
 
     // (c3) junk around and inside the weight; weight spellings f32::from_str would accept but the notation does not
@@ -924,6 +924,42 @@ pub fn run(tier: &str, mode: Mode) -> i32 {
         rep.sub("showdowns", "all lists of 1 and 2 (and 27 lists of 3) out of six parsed overlapping ranges on 3 flops, enumerated completely: every showdown holds 5+2n different cards and a probability in [0,1]; distinct_nontrivial = showdowns inspected", jobs.len() as u64, sds, false, json!({"showdowns": sds}));
     }
     rep.assume("a caught panic is the observation 'did not return normally'; allocation failure cannot be caught and would abort the check (machinery exit)");
+    // parsing while the thread is shutting down: a value with a destructor is put into the thread's local storage BEFORE
+    // the first parse (destructors run last-registered-first), the thread parses, and at thread exit the destructor
+    // parses again - every parser must still return a value or an error (no "TLS value accessed after destruction")
+    if mode == Mode::Total {
+        struct AtExit(std::sync::mpsc::Sender<Result<(), String>>);
+        impl Drop for AtExit {
+            fn drop(&mut self) {
+                let r = catch(|| {
+                    let _ = "AKs:0.5".parse::<HandRangeToken>();
+                    let _ = "QQ+,AsKs".parse::<HandRange>().map(|r| r.to_string());
+                    let _ = "As".parse::<espada::card::Card>();
+                    let _ = "AsKs".parse::<espada::hand_range::CardPair>();
+                    let _ = "A".parse::<Rank>();
+                    let _ = "s".parse::<espada::card::Suit>();
+                });
+                let _ = self.0.send(r);
+            }
+        }
+        thread_local! {
+            static AT_EXIT: std::cell::RefCell<Option<AtExit>> = std::cell::RefCell::new(None);
+        }
+        let (tx, rx) = std::sync::mpsc::channel();
+        let h = std::thread::spawn(move || {
+            AT_EXIT.with(|c| *c.borrow_mut() = Some(AtExit(tx)));
+            let _ = "TT-88:0.25".parse::<HandRangeToken>();
+            let _ = "22+".parse::<HandRange>().map(|r| (r.to_string(), r.rank_pairs().len()));
+            let _ = "KdKc".parse::<espada::hand_range::CardPair>();
+        });
+        let _ = h.join();
+        match rx.recv_timeout(std::time::Duration::from_secs(30)) {
+            Ok(Ok(())) => {}
+            Ok(Err(e)) => push_viol(&mut rep, "thread-exit", "AKs:0.5 / QQ+,AsKs / As / AsKs / A / s parsed in a thread-local destructor", "parse at thread exit", &e, mode),
+            Err(_) => push_viol(&mut rep, "thread-exit", "parsers called in a thread-local destructor", "parse at thread exit", "the destructor did not report (the thread died while shutting down)", mode),
+        }
+        rep.sub("thread-exit", "a thread registers a thread-local value with a destructor before its first parse, parses a token, a range and a card pair, and at thread exit the destructor calls all six parsers again under catch_unwind: they return normally", 1, 1, true, json!({}));
+    }
     {
         let (bad, strings, n) = history_thread.join().unwrap_or((vec![("thread".into(), "history".into(), "the history thread died".into())], 0, 0));
         for (s2, stage, what) in bad {
